@@ -2,6 +2,7 @@ import MdkVerif.Model.Client
 import MdkVerif.Proofs.Client
 import MdkVerif.Props.C06Wrap
 import MdkVerif.Props.C06Ffi
+import MdkVerif.Props.C08
 /-
   C06 — a refused event has no effect (the frame part; absence of panics is a runtime fact that the
   harness searches for, totality of the model is NOT presented as a no-panic proof).
@@ -42,43 +43,45 @@ theorem step1_refuse_frame (retry : Cl → Option (Cl × Res)) (nx : Nat) (c : C
   unfold step1
   split
   · intro _; rfl
-  · simp only
-    split
-    · intro _; simp
-    · split
-      · -- commit
-        split
-        · unfold wrongEpochCommit
-          simp only [withSecret_isBetter, hnb, Bool.false_eq_true, if_false]
-          exact frame_notBetter c e hs
-        · split
+  · split
+    · intro _; rfl
+    · simp only
+      split
+      · intro _; simp
+      · split
+        · -- commit
+          split
+          · unfold wrongEpochCommit
+            simp only [withSecret_isBetter, hnb, Bool.false_eq_true, if_false]
+            exact frame_notBetter c e hs
           · split
-            · intro h; simp [isRefusal] at h
-            · exact frame_ownMessage c e hs
-          · split
-            · exact frame_fail c e
-            · unfold processCommit
-              split
-              · intro _; simp [recordFailure, setRec, proj, withSecret, ensureSecret_fields]
+            · split
               · intro h; simp [isRefusal] at h
-      · -- leave
-        split
-        · exact frame_fail c e
-        · split
-          · exact frame_ownMessage c e hs
-          · split
-            · exact frame_fail c e
-            · split <;> (intro h; simp [isRefusal] at h)
-      · -- app
-        split
-        · exact frame_fail c e
-        · split
+              · exact frame_ownMessage c e hs
+            · split
+              · exact frame_fail c e
+              · unfold processCommit
+                split
+                · intro _; simp [recordFailure, setRec, proj, withSecret, ensureSecret_fields, ensureSecret_data]
+                · split <;> (intro h; simp [isRefusal] at h)
+        · -- leave
+          split
           · exact frame_fail c e
           · split
             · exact frame_ownMessage c e hs
             · split
               · exact frame_fail c e
-              · intro h; simp [isRefusal, storeApp] at h
+              · split <;> (intro h; simp [isRefusal] at h)
+        · -- app
+          split
+          · exact frame_fail c e
+          · split
+            · exact frame_fail c e
+            · split
+              · exact frame_ownMessage c e hs
+              · split
+                · exact frame_fail c e
+                · intro h; simp [isRefusal, storeApp] at h
 
 /-- **refuse_frame_partial**: for every client state, event and fuel, if no rollback is triggered, a
     refused event leaves the projection exactly as it was -/
@@ -97,13 +100,21 @@ theorem refuse_frame_partial (fuel nx : Nat) (c : Cl) (e : Ev) (hs : Synced c.g)
   | zero => exact key _ h
   | succ f => exact key _ h
 
+/-- an evicted member (whose record is deliberately NOT in step with its merged MLS state, so `refuse_frame_partial`
+    does not speak about it): every delivery is refused and leaves the projection as it was, for every event and fuel -/
+theorem refuse_frame_evicted (fuel nx : Nat) (c : Cl) (e : Ev) (ha : c.g.active = false) :
+    isRefusal (deliverN fuel nx c e).2 = true ∧ proj (deliverN fuel nx c e).1 = proj c := by
+  obtain ⟨_, hres, hp⟩ := C08.evicted_deliver fuel nx c e ha
+  refine ⟨?_, hp⟩
+  rcases hres with h | h | h | h <;> rw [h] <;> rfl
+
 /-! ### the hypothesis is necessary: a commit that is 'better' by timestamp but NOT authorised makes
     the receiver roll back first and reject afterwards (signature `rollback-before-authorisation`) -/
 
 def wClient : Cl := initCl 2 false 5 [0, 1, 2] [0] 1
-def wGood : Ev := { n := 1, ts := 20, idnum := 7, cipher := 1, sender := 0, path := [], kind := .commit (.setName 5) [] }
+def wGood : Ev := { n := 1, ts := 20, idnum := 7, cipher := 1, sender := 0, path := [], kind := .commit (.setData { initData [0] 1 with name := 5 }) [] }
 /-- built by the non-admin member 1 with OpenMLS directly, wrapper timestamp earlier than `wGood` -/
-def wEvil : Ev := { n := 2, ts := 10, idnum := 9, cipher := 2, sender := 1, path := [], kind := .commit (.setName 6) [] }
+def wEvil : Ev := { n := 2, ts := 10, idnum := 9, cipher := 2, sender := 1, path := [], kind := .commit (.setData { initData [0] 1 with name := 6 }) [] }
 def wAfterGood : Cl := (deliver wClient wGood 0).1
 
 theorem witness_rollback_then_reject :
@@ -128,6 +139,30 @@ theorem witness_rewrapped_commit :
     (deliver (deliver wClient wCopyLate 0).1 wGood 0).2 = .unprocessable ∧
     (deliver (deliver wClient wCopyLate 0).1 wGood 0).1.g.path = [] ∧
     (deliver (deliver (deliver wClient wCopyLate 0).1 wGood 0).1 wCopyLate 0).2 = .unprocessable := by decide
+
+/-! ### a third way (signature `retagged-commit-rollback`): the `h` tag of a wrapper is not authenticated either.
+    After the receiver applied a commit that ROTATED the nostr group id, a sibling of that commit re-published
+    under the NEW id is found, opens (past-epoch secret), is judged 'better' by its wrapper timestamp, and the
+    receiver rolls back — which restores the OLD id; the re-processing then looks the same event up again, under
+    the restored id, and fails with GroupNotFound.  The refusal leaves the client one epoch back, the rotation
+    commit EpochInvalidated for ever. -/
+def wRot : Ev := { n := 1, ts := 20, idnum := 7, cipher := 1, sender := 0, path := [], kind := .commit (.setData { initData [0] 1 with nid := 8 }) [] }
+def wSib : Ev := { n := 2, ts := 10, idnum := 9, cipher := 2, sender := 1, path := [], kind := .commit .selfUpdate [] }
+def wSibRetag : Ev := { wSib with n := 3, idnum := 4, tag := 8 }
+theorem witness_retagged_commit_rollback :
+    (deliver wClient wRot 0).2 = .commit ∧ (deliver wClient wRot 0).1.g.recNid = 8 ∧
+    (deliver (deliver wClient wRot 0).1 wSibRetag 0).2 = .err eGroupNotFound ∧
+    (deliver (deliver wClient wRot 0).1 wSibRetag 0).1.g.path = [] ∧
+    (deliver (deliver wClient wRot 0).1 wSibRetag 0).1.g.recNid = 0 ∧
+    (deliver (deliver (deliver wClient wRot 0).1 wSibRetag 0).1 wRot 0).2 = .unprocessable ∧
+    -- the original sibling (old id) is still applicable afterwards — unless it was offered in between
+    (deliver (deliver (deliver wClient wRot 0).1 wSibRetag 0).1 wSib 0).2 = .commit ∧
+    (deliver (deliver (deliver (deliver wClient wRot 0).1 wSib 0).1 wSibRetag 0).1 wSib 0).2 = .unprocessable := by decide
+
+theorem refuse_frame_full_false_retag : ¬ refuse_frame_full := by
+  intro h
+  have := h (deliver wClient wRot 0).1 wSibRetag 0 (by decide) (by decide)
+  revert this; decide
 
 /-- non-vacuity of `refuse_frame_partial`: a refused duplicate in a state with a snapshot -/
 example : isBetter wAfterGood (epochOf wGood.path) wGood = false ∧ isRefusal (deliver wAfterGood { wGood with n := 9, ts := 30 } 0).2 = true := by
